@@ -255,7 +255,75 @@ ASSUMPTIONS = [
 ]
 
 
+def run_lifecycle(ctx: core.Ctx, res: core.Result, n: int):
+    """histories that go through the component's life-cycle operations: (A) activate, clear(), activate again — the weights
+    after the reset are those of the NEW sets alone, exactly as on a fresh component; (B) a second component is started from the
+    live state of the first (sets, trees, states handed to the constructor) and refined further — each component's weights
+    remain the inclusion-exclusion values of its OWN sets"""
+    import copy
+    rng = ctx.rng
+
+    def walk(comp, k, hist):
+        for _ in range(k):
+            cands = sorted(comp.candidate_set) if comp.active_set else [((0,) * len(comp.model_fidelity), (0,) * len(comp.max_beta))]
+            if not cands:
+                break
+            a, b = rng.choice(cands)
+            comp.activate_index(a, b)
+            hist.append(list(a) + list(b))
+            yield
+
+    for _ in range(n):
+        meta = ic.gen_box(rng, max_states=40)
+        na, nd, ns, limits = meta
+        # (A) clear and retrain
+        comp, hist1, hist2 = ic.make_component(na, nd, ns, limits), [], []
+        for _ in walk(comp, rng.randint(2, 6), hist1):
+            pass
+        comp.clear()
+        info = {'box': meta, 'history_before_clear': hist1}
+        A, C, T, E = ic.py_sets(comp)
+        if A or C or T or E:
+            res.failures.append({'kind': 'state-not-empty-after-clear', 'input': info, 'observed': ic.canon_state(comp)})
+        fresh = ic.make_component(na, nd, ns, limits)
+        for _ in walk(comp, rng.randint(2, 7), hist2):
+            a, b = ic.split(tuple(hist2[-1]), na)
+            fresh.activate_index(a, b)
+            msg = ic.oracle_c01(comp)
+            if msg or ic.canon_state(comp) != ic.canon_state(fresh):
+                res.failures.append({'kind': 'weights-after-clear-depend-on-the-history-before-it',
+                                     'input': {**info, 'history_after_clear': list(hist2)},
+                                     'observed': msg or ic.canon_state(comp), 'expected': ic.canon_state(fresh)})
+                break
+        res.hit('clear-then-retrain')
+        # (B) hand-over of the live state to a second component
+        base, histb, histt = ic.make_component(na, nd, ns, limits, name='base'), [], []
+        for _ in walk(base, rng.randint(2, 6), histb):
+            pass
+        twin = ic.make_component(na, nd, ns, limits, name='twin', active_set=base.active_set, candidate_set=base.candidate_set,
+                                 misc_states=base.misc_states, misc_costs=base.misc_costs,
+                                 misc_coeff_train=base.misc_coeff_train, misc_coeff_test=base.misc_coeff_test,
+                                 model_costs=base.model_costs, training_data=copy.deepcopy(base.training_data))
+        frozen = ic.canon_state(base)
+        info = {'box': meta, 'history_of_base': histb}
+        if ic.canon_state(twin) != frozen:
+            res.failures.append({'kind': 'handed-over-state-differs', 'input': info, 'observed': ic.canon_state(twin), 'expected': frozen})
+        for _ in walk(twin, rng.randint(1, 5), histt):
+            m1, m2 = ic.oracle_c01(twin), ic.oracle_c01(base)
+            if m1 or m2 or ic.canon_state(base) != frozen:
+                res.failures.append({'kind': 'components-started-from-one-state-share-their-weights',
+                                     'input': {**info, 'history_of_twin': list(histt)},
+                                     'observed': {'twin': m1, 'base': m2 or ic.canon_state(base)}, 'expected': {'base': frozen}})
+                break
+        res.hit('state-handed-to-a-second-component')
+        res.case(('lifecycle', meta, tuple(map(tuple, hist1 + hist2 + histb + histt))), True,
+                 {'box': meta, 'clear': [hist1, hist2], 'hand_over': [histb, histt]})
+
+
 def run(ctx: core.Ctx, only=None) -> core.Result:
     res = run_index(ctx, 'C01', 0.2, only)
+    if only is None:
+        with core.guarded(res, 'scenario-raised', {'lifecycle': True}):
+            run_lifecycle(ctx, res, ctx.scale(6, 30))
     search(ctx, res, 'C01')
     return res
